@@ -34,6 +34,18 @@ ENDPOINTS = [
     dict(endpoint="v2.service.add", method="POST", path=V2 + "/service/add", op="write", nsparam="namespaceId", json={"serviceName": "svc-new", "groupName": "DEFAULT_GROUP"}),
     dict(endpoint="v1.ns.services", method="GET", path=V1 + "/ns/services", op="list", nsparam="namespaceId", query={"pageNo": "1", "pageSize": "100"}),
     dict(endpoint="v1.instances", method="GET", path=V1 + "/instances", op="read", nsparam="namespaceId", query={"serviceName": "{svc}", "groupName": "DEFAULT_GROUP"}),
+    dict(endpoint="v2.instance.info", method="GET", path=V2 + "/instance/info", op="read", nsparam="namespaceId", query={"serviceName": "{svc}", "groupName": "DEFAULT_GROUP", "ip": "{ip}", "port": "8080"}),
+    dict(endpoint="v2.instance.update", method="POST", path=V2 + "/instance/update", op="write", nsparam="namespaceId", json={"serviceName": "{svc}", "groupName": "DEFAULT_GROUP", "ip": "{ip}", "port": 8080, "weight": 2.0, "enabled": True, "ephemeral": True}),
+    dict(endpoint="v2.instance.remove", method="POST", path=V2 + "/instance/remove", op="write", nsparam="namespaceId", json={"serviceName": "{svc}", "groupName": "DEFAULT_GROUP", "ip": "{ip}", "port": 8080, "ephemeral": True}),
+    dict(endpoint="v1.ns.instance.get", method="GET", path=V1 + "/ns/instance", op="read", nsparam="namespaceId", query={"serviceName": "{svc}", "groupName": "DEFAULT_GROUP", "ip": "{ip}", "port": "8080"}),
+    dict(endpoint="v1.ns.instance.post", method="POST", path=V1 + "/ns/instance", op="write", nsparam="namespaceId", form={"serviceName": "{svc}", "groupName": "DEFAULT_GROUP", "ip": "{ip}", "port": "8080", "weight": "2", "ephemeral": "true"}),
+    dict(endpoint="v1.ns.instance.delete", method="DELETE", path=V1 + "/ns/instance", op="write", nsparam="namespaceId", query={"serviceName": "{svc}", "groupName": "DEFAULT_GROUP", "ip": "{ip}", "port": "8080", "ephemeral": "true"}),
+    dict(endpoint="v1.ns.service.get", method="GET", path=V1 + "/ns/service", op="read", nsparam="namespaceId", query={"serviceName": "{svc}", "groupName": "DEFAULT_GROUP"}),
+    dict(endpoint="v2.mcp.toolspec.list", method="GET", path=V2 + "/mcp/toolspec/list", op="list", nsparam="namespaceId", query={"pageNo": "1", "pageSize": "100"}),
+    dict(endpoint="v2.mcp.toolspec.info", method="GET", path=V2 + "/mcp/toolspec/info", op="read", nsparam="namespace", query={"group": "{grp}", "toolName": "t1"}),
+    dict(endpoint="v2.mcp.toolspec.add", method="POST", path=V2 + "/mcp/toolspec/add", op="write", nsparam="namespace", json={"group": "{grp}", "toolName": "tnew"}),
+    dict(endpoint="v2.mcp.toolspec.remove", method="POST", path=V2 + "/mcp/toolspec/remove", op="write", nsparam="namespace", json={"group": "{grp}", "toolName": "t1"}),
+    dict(endpoint="v1.namespaces.list", method="GET", path=V1 + "/namespaces", op="nslist", nsparam=None, query={}),
     dict(endpoint="v2.namespaces.list", method="GET", path=V2 + "/namespaces/list", op="nslist", nsparam=None, query={}),
     dict(endpoint="v2.namespaces.update", method="POST", path=V2 + "/namespaces/update", op="write", nsparam="namespaceId", json={"namespaceName": "renamed"}),
     dict(endpoint="v2.namespaces.remove", method="POST", path=V2 + "/namespaces/remove", op="write", nsparam="namespaceId", json={}),
@@ -50,9 +62,10 @@ def instantiate(ep, combo, i):
     ns, spelling = combo["ns"], combo["spelling"]
     did = "d1-MARK-%s" % LABEL[ns]
     svc = "svc-MARK-%s" % LABEL[ns]
+    ip = {"pub": "10.9.9.1", "nsA": "10.9.9.2", "nsB": "10.9.9.3"}[LABEL[ns]]
 
     def fill(d):
-        return {k: (v.replace("{did}", did).replace("{svc}", svc) if isinstance(v, str) else v) for k, v in (d or {}).items()}
+        return {k: (v.replace("{did}", did).replace("{svc}", svc).replace("{ip}", ip).replace("{grp}", "g-MARK-%s" % LABEL[ns]) if isinstance(v, str) else v) for k, v in (d or {}).items()}
     r = dict(id=i, endpoint=ep["endpoint"], method=ep["method"], path=ep["path"], op=ep["op"], ns=ns, spelling=spelling, priv=combo["priv"])
     q, j, f = fill(ep.get("query")), (fill(ep["json"]) if "json" in ep else None), (fill(ep["form"]) if "form" in ep else None)
     nsval = {"explicit": ns, "omitted": None, "empty": "", "public": "public"}[spelling]
@@ -133,7 +146,7 @@ def run(tier):
     c.sample({"observation": next(o for o in obs if o["endpoint"] == "v2.config.info" and not allowed(o["priv"], o["ns"]))})
     c.assumptions += [
         "privilege groups with enabled = true only (the meaning of a disabled group is not fixed by the property)",
-        "endpoint table (22 console data endpoints of both API versions) is written by hand in tools/checks/c18.py and "
+        "endpoint table (console data endpoints of both API versions) is written by hand in tools/checks/c18.py and "
         "cross-checked against the route inventory of the running app; data routes missing from the table are listed in "
         "coverage.console_data_routes_not_in_table (MCP and some v1 naming write routes are not driven yet)",
         "leak = the answer contains the seeded marker of a namespace the user may not access; change = the state digest "
@@ -141,7 +154,7 @@ def run(tier):
     ]
     shutil.rmtree(sc, ignore_errors=True)
     return c.finish(
-        rule="complete product enumerated by TLC: 22 console data endpoints x 5 whitelist shapes x 5 blacklist shapes x 5 "
+        rule="complete product enumerated by TLC: the console data endpoints of the table (34) x 5 whitelist shapes x 5 blacklist shapes x 5 "
              "namespace spellings (explicit A / B, default namespace omitted / empty / 'public'), executed on the real console "
              "app of a single-member Raft node with seeded data in three namespaces; TLC evaluates NoForeignAccess and "
              "AllowedWorks on every observation; non-trivial = requests addressing a namespace the user may not access",
